@@ -64,7 +64,7 @@ def _ids(tier):
                   min_size=1, max_size=6)
   # exactly 1,000,000 (the largest valid id) makes every later fetch walk a million slots: keep it rare
   rare = st.lists(weighted((2, _idspec()), (1, st.just(['million']))), min_size=1, max_size=3)
-  return weighted((20, common), (39, calm), (1, rare))
+  return weighted((50, common), (99, calm), (1, rare))
 
 
 def strategy(tier):
